@@ -188,12 +188,13 @@ Definition run_case (O : NumOps bigQ) (k M : nat) (tbl : list (Z * pyf)) (zs : l
     (length e_atom =? length atoms) && (length e_gsel =? length atoms) && (length e_csel =? length atoms)
   end.
 
-(* generate_weights with an explicit select and pt_ind *)
+(* generate_weights and compute_weights with an explicit select and pt_ind *)
 Definition run_select (O : NumOps bigQ) (k M : nat) (tbl : list (Z * pyf)) (zs : list Z)
-  (Rm : list (list bigQ)) (pts : list (list bigQ)) (select idx : list nat) (e_gen : list bigQ) : bool :=
+  (Rm : list (list bigQ)) (pts : list (list bigQ)) (select idx : list nat) (e_gen e_comp : list bigQ) : bool :=
   match radii_of O tbl zs with
   | None => false
-  | Some rl => chk (generate_weights O k M (fl rl) (ml Rm) (map fl pts) select idx) e_gen
+  | Some rl => chk (generate_weights O k M (fl rl) (ml Rm) (map fl pts) select idx) e_gen &&
+               chk (compute_weights O k M (fl rl) (ml Rm) (map fl pts) select idx) e_comp
   end.
 
 (* the rounded instance against the exact instance *)
